@@ -155,12 +155,16 @@ Definition strip4 (l : list nat) : list nat :=
 (* step 5: write_doc vs the written document; step 6: read_doc of the written document vs the model read;
    step 7: the theorem's instance -- inside sbml_ok the model's round trip is Ok (norm m) (a failure here
    means the compiled theorem and this evaluation disagree: cannot happen) and, code 2, the implementation's
-   read-back is norm m as well *)
+   read-back is norm m as well; step 8: a written document with one SId twice is not accepted by the validator *)
 Definition doc_codes (k : scase) : list (nat * nat) :=
   let c := s_cfg k in
   (match s_written k with
    | Err EUnmodelled => []                           (* a number the document record cannot hold (nan) *)
    | w => if wres_eqb (m_write c (s_sm k)) w then [] else [(5%nat, 1%nat)]
+   end) ++
+  (match s_written k with
+   | Ok d => if negb (nodupb (core_sids d)) && (s_valid k =? 0) then [(8%nat, 1%nat)] else []
+   | _ => []
    end) ++
   match s_written k, s_readback k with
   | Ok d, Some r =>
